@@ -224,6 +224,20 @@ theorem runEv_ok (n : Net) (e : Ev) (h : Inv n) :
     | some ch =>
       have hl : ch.load ≤ ch.cap := h.2 ch (List.mem_of_getElem? hk)
       exact ⟨inv_set_chan h c _ hl, by intro r hr; cases hr⟩
+  | wjoin c i =>
+    unfold runEv
+    cases hk : n.chans[c]? with
+    | none => exact ⟨h, by intro r hr; cases hr⟩
+    | some ch =>
+      have hl : ch.load ≤ ch.cap := h.2 ch (List.mem_of_getElem? hk)
+      exact ⟨inv_set_chan h c _ hl, by intro r hr; cases hr⟩
+  | wleave c i =>
+    unfold runEv
+    cases hk : n.chans[c]? with
+    | none => exact ⟨h, by intro r hr; cases hr⟩
+    | some ch =>
+      have hl : ch.load ≤ ch.cap := h.2 ch (List.mem_of_getElem? hk)
+      exact ⟨inv_set_chan h c _ hl, by intro r hr; cases hr⟩
   | lost k fromA s nested =>
     unfold runEv
     cases hk : n.links[k]? with
@@ -579,6 +593,16 @@ theorem runEv_fit (n : Net) (e : Ev) : ∀ r ∈ (runEv n e).2, RecFit r := by
     cases hk : n.chans[c]? with
     | none => intro r hr; cases hr
     | some ch => intro r hr; cases hr
+  | wjoin c i =>
+    unfold runEv
+    cases hk : n.chans[c]? with
+    | none => intro r hr; cases hr
+    | some ch => intro r hr; cases hr
+  | wleave c i =>
+    unfold runEv
+    cases hk : n.chans[c]? with
+    | none => intro r hr; cases hr
+    | some ch => intro r hr; cases hr
   | lost k fromA s nested =>
     unfold runEv
     cases hk : n.links[k]? with
@@ -776,23 +800,24 @@ theorem C18_wireless_heard_only_if_enabled (n : Net) (ops : List Op) :
     ∀ r ∈ (run n ops).2, r.verdict = .heard → r.enR = true :=
   fun r hmem hh => (run_fit n ops r hmem).2 hh
 
-/-- One turn of that loop: interface `j` hears the frame sent by `i` iff it is enabled **now** and is not the sender; nothing
-else changes. -/
+/-- One turn of that loop: interface `j` hears the frame sent by `i` iff it is in the frequency's interface list and enabled
+**now**, and is not the sender; nothing else changes. -/
 theorem C18_wireless_hears_iff_enabled_now (n : Net) (c i j : Nat) (ch : Chan) (hc : n.chans[c]? = some ch) :
     (runEv n (.wrecv c i j)).1 = n ∧
-    ∃ r, (runEv n (.wrecv c i j)).2 = [r] ∧ r.rcv = [j] ∧ (r.verdict = .heard ↔ (ch.en[j]? = some true ∧ j ≠ i)) := by
+    ∃ r, (runEv n (.wrecv c i j)).2 = [r] ∧ r.rcv = [j] ∧
+      (r.verdict = .heard ↔ (ch.mem[j]? = some true ∧ ch.en[j]? = some true ∧ j ≠ i)) := by
   unfold runEv
   simp only [hc, true_and]
   refine ⟨_, rfl, rfl, ?_⟩
-  cases hj : ch.en[j]? with
+  cases hm : ch.mem[j]? with
   | none => simp [hearVerdict]
-  | some b =>
-    cases b with
-    | false => simp [hearVerdict]
-    | true =>
+  | some m =>
+    cases hj : ch.en[j]? with
+    | none => cases m <;> simp [hearVerdict]
+    | some b =>
       by_cases hij : j = i
-      · simp [hearVerdict, hij]
-      · simp [hearVerdict, hij]
+      · cases m <;> cases b <;> simp [hearVerdict, hij]
+      · cases m <;> cases b <;> simp [hearVerdict, hij]
 
 /-- **Overflow is dropped at the sender (wired).** If the frame does not fit, nothing changes anywhere, nothing nested runs,
 and the single record says the frame did not cross. -/
@@ -853,7 +878,7 @@ theorem C18_admitted_iff_fits (n : Net) (k : Nat) (fromA : Bool) (s : Nat) (acc 
 theorem C18_tick_starts_zero (n : Net) :
     (∀ l ∈ (tick n).links, l.load = 0) ∧ (∀ c ∈ (tick n).chans, c.load = 0) ∧
     (tick n).links.map (fun l => (l.bw, l.enA, l.enB)) = n.links.map (fun l => (l.bw, l.enA, l.enB)) ∧
-    (tick n).chans.map (fun c => (c.caps, c.en)) = n.chans.map (fun c => (c.caps, c.en)) := by
+    (tick n).chans.map (fun c => (c.caps, c.en, c.mem)) = n.chans.map (fun c => (c.caps, c.en, c.mem)) := by
   refine ⟨?_, ?_, ?_, ?_⟩
   · intro l hl
     simp only [tick, List.mem_map] at hl
@@ -1007,6 +1032,41 @@ theorem C18_gen_toggle_sites : Gen.Link.toggleSites = [
   "wireless_router.py:WirelessRouter.configure_wireless_access_point:self.wireless_access_point.disable",
   "wireless_router.py:WirelessRouter.configure_wireless_access_point:self.wireless_access_point.enable"] := by decide
 
+/-- **Who writes a load.** The airspace's per-frequency load `bandwidth_load` is written by its declaration, the lazy `= 0.0` in
+`can_transmit_frame`, the `+=` in `transmit` and `reset_bandwidth_load` (called by `Network.pre_timestep`) — by nothing else in
+src/primaite; a link's `current_load` by its declaration, `transmit_frame` (`+=`, `-=`) and `pre_timestep`.  So no interface
+operation (enable, disable, add / remove from the airspace, `clear`, power events, re-configuration) can lower a load inside a
+tick: the wireless twin of F-40 cannot come back unnoticed. -/
+theorem C18_gen_load_writers :
+    Gen.Link.airLoadWriters = [
+  "airspace.py:AirSpace.<module>:bandwidth_load declared",
+  "airspace.py:AirSpace.can_transmit_frame:bandwidth_load[…] =",
+  "airspace.py:AirSpace.reset_bandwidth_load:bandwidth_load =",
+  "airspace.py:AirSpace.transmit:bandwidth_load[…] Add="] ∧
+    Gen.Link.linkLoadWriters = [
+  "base.py:Link.<module>:current_load declared",
+  "base.py:Link.pre_timestep:current_load =",
+  "base.py:Link.transmit_frame:current_load Add=",
+  "base.py:Link.transmit_frame:current_load Sub="] := by decide
+
+/-- `AirSpace.add_wireless_interface`, `remove_wireless_interface` and `clear` have exactly the steps the model's `wjoin` /
+`wleave` stand for (registry and per-frequency interface lists; the extractor refuses any other statement). -/
+theorem C18_gen_air_membership_ops :
+    Gen.Link.airMembershipOps = [("add_wireless_interface", ["if-absent", "register", "ensure-list", "append-to-list"]),
+      ("clear", ["clear-registry", "clear-lists"]), ("remove_wireless_interface", ["if-present", "unregister", "remove-from-list"])] := by
+  decide
+
+/-- **The size admitted is the size accounted, on every send path** (F-28b's class).  The admission test and the accounting each
+evaluate `frame.size_Mbits` (Link: twice in `can_transmit_frame` — one into an unused local —, once at the top of `transmit_frame`;
+AirSpace: once each); the frame is stamped before the admission test (`C18_gen_orders`, `C18_gen_every_send_frame_modelled`); between
+the two evaluations only `super().send_frame(frame)` and `pcap.capture_outbound(frame)` run (enforced by the extractor), and those
+write nothing on the frame and call nothing on it but `model_dump_json()`; nothing but the choice of the receiver precedes the size
+read in `transmit_frame`.  A further evaluation, a write, or another call on the frame in that window changes these tables. -/
+theorem C18_gen_size_window :
+    Gen.Link.sizeEvaluations = [("AirSpace.can_transmit_frame", 1), ("AirSpace.transmit", 1), ("Link.can_transmit_frame", 2), ("Link.transmit_frame", 1)] ∧
+    Gen.Link.frameWritesBetweenAdmissionAndAccounting = [] ∧
+    Gen.Link.frameCallsBetweenAdmissionAndAccounting = ["PacketCapture.capture_outbound:frame.model_dump_json()"] := by decide
+
 /-! ### Non-vacuity: a tight link, an ARP-like request whose delivery triggers the reply -/
 
 /-- Link of 10 units, both ends up; request of 6 whose delivery sends a reply of 6 back: the reply is dropped at the
@@ -1029,7 +1089,7 @@ interface 2 is enabled while 1 is processing, so the same loop then reaches it a
 example :
     let n : Net := { links := [], chans := [{ caps := [10, 10, 10], load := 0, en := [true, true, false] }] }
     let r := run n [.act [.wsend 0 0 7 [.wrecv 0 0 1, .wsend 0 1 4 [], .wrecv 0 0 2]], .tick,
-                    .act [.wsend 0 0 1 [.wrecv 0 0 1, .wsetEn 0 2 true, .wrecv 0 0 2]], .act [.wsend 0 2 1 [.wrecv 0 2 2]]]
+                    .act [.wsend 0 0 1 [.wrecv 0 0 1, .wsetEn 0 2 true, .wjoin 0 2, .wrecv 0 0 2]], .act [.wsend 0 2 1 [.wrecv 0 2 2]]]
     r.2.map (fun x => (x.verdict, x.rcv, x.load)) =
       [(.heard, [1], 7), (.full, [], 7), (.deaf, [2], 7), (.carried, [], 7),
        (.heard, [1], 1), (.heard, [2], 1), (.carried, [], 1), (.deaf, [2], 2), (.carried, [], 2)] := by decide
@@ -1153,6 +1213,16 @@ theorem runEv_accounts (n : Net) (e : Ev) (k : Nat) :
           cases endA <;> simp [carriedOn, loadOf_eq n k l hk]
         · simp [carriedOn, hkk]
   | wsetEn c i v =>
+    unfold runEv
+    cases hc : n.chans[c]? with
+    | none => simp [carriedOn]
+    | some ch => simp [carriedOn, loadOf]
+  | wjoin c i =>
+    unfold runEv
+    cases hc : n.chans[c]? with
+    | none => simp [carriedOn]
+    | some ch => simp [carriedOn, loadOf]
+  | wleave c i =>
     unfold runEv
     cases hc : n.chans[c]? with
     | none => simp [carriedOn]
@@ -1305,6 +1375,16 @@ theorem runEv_bw (n : Net) (e : Ev) (k : Nat) :
     cases hc : n.chans[c]? with
     | none => exact ⟨rfl, rfl⟩
     | some ch => exact ⟨rfl, capOf_set n c k ch { ch with en := ch.en.set i v } hc rfl⟩
+  | wjoin c i =>
+    unfold runEv
+    cases hc : n.chans[c]? with
+    | none => exact ⟨rfl, rfl⟩
+    | some ch => exact ⟨rfl, capOf_set n c k ch { ch with mem := ch.mem.set i true } hc rfl⟩
+  | wleave c i =>
+    unfold runEv
+    cases hc : n.chans[c]? with
+    | none => exact ⟨rfl, rfl⟩
+    | some ch => exact ⟨rfl, capOf_set n c k ch { ch with mem := ch.mem.set i false } hc rfl⟩
   | lost k0 fromA s nested =>
     unfold runEv
     cases hk : n.links[k0]? with
@@ -1425,6 +1505,26 @@ theorem runEv_air_accounts (n : Net) (e : Ev) (c : Nat) :
       · simp [hcur, carriedOn]
       · simp [hcur, carriedOn, cloadOf]
   | wsetEn c0 i v =>
+    unfold runEv
+    cases hc : n.chans[c0]? with
+    | none => simp [carriedOn]
+    | some ch =>
+      simp only
+      rw [cloadOf_set n c0 c ch _ hc]
+      by_cases hcc : c = c0
+      · subst hcc; simp [carriedOn, cloadOf_eq n c ch hc]
+      · simp [carriedOn, hcc]
+  | wjoin c0 i =>
+    unfold runEv
+    cases hc : n.chans[c0]? with
+    | none => simp [carriedOn]
+    | some ch =>
+      simp only
+      rw [cloadOf_set n c0 c ch _ hc]
+      by_cases hcc : c = c0
+      · subst hcc; simp [carriedOn, cloadOf_eq n c ch hc]
+      · simp [carriedOn, hcc]
+  | wleave c0 i =>
     unfold runEv
     cases hc : n.chans[c0]? with
     | none => simp [carriedOn]
@@ -1599,6 +1699,49 @@ example :
     r.2.map (·.verdict) = [.lost, .lost, .carried, .full, .full] ∧
     (loadOf r.1 0, loadOf r.1 1, cloadOf r.1 0) = (5, 3, 6) := by decide
 
+/-! ### The wireless twin of F-40: a frequency that is emptied and repopulated inside a tick
+
+`remove_wireless_interface` / `add_wireless_interface` (`Ev.wleave` / `Ev.wjoin`; `disable()` / `enable()` = flag + these) handle
+interface lists only.  The data transmitted on a frequency in a tick is counted from the records of the sends themselves
+(`carriedOn true c`), not from the airspace's counter; it is within the capacity for every forest — interfaces enabled, disabled,
+added, removed at any point, also all of them at once. -/
+
+/-- Adding or removing an interface leaves every load alone and sends nothing. -/
+theorem C18_air_membership_keeps_load (n : Net) (c i c' : Nat) :
+    cloadOf (runEv n (.wleave c i)).1 c' = cloadOf n c' ∧ cloadOf (runEv n (.wjoin c i)).1 c' = cloadOf n c' ∧
+    loadOf (runEv n (.wleave c i)).1 c' = loadOf n c' ∧ loadOf (runEv n (.wjoin c i)).1 c' = loadOf n c' := by
+  have h1 := runEv_air_accounts n (.wleave c i) c'
+  have h2 := runEv_air_accounts n (.wjoin c i) c'
+  have h3 := runEv_accounts n (.wleave c i) c'
+  have h4 := runEv_accounts n (.wjoin c i) c'
+  have e1 : (runEv n (.wleave c i)).2 = [] := by unfold runEv; cases n.chans[c]? <;> rfl
+  have e2 : (runEv n (.wjoin c i)).2 = [] := by unfold runEv; cases n.chans[c]? <;> rfl
+  rw [e1] at h1 h3
+  rw [e2] at h2 h4
+  simp only [carriedOn, Nat.add_zero] at h1 h2 h3 h4
+  exact ⟨h1, h2, h3, h4⟩
+
+/-- The property read literally for a wireless channel: whatever happens in a tick, the data transmitted on it (sum over the sends
+that were put on the air) stays within the largest capacity configured on the hz. -/
+def C18_Full_air_transmitted : Prop :=
+  ∀ (n : Net) (evs : List Ev) (c : Nat), carriedOn true c (runEvs (tick n) evs).2 ≤ capOf n c
+
+theorem C18_Full_air_transmitted_holds : C18_Full_air_transmitted := fun n evs c => (C18_air_carried_le_capacity n evs c).2
+
+/-- the only access point of a channel of 10 transmits 8, is disabled and removed (the frequency's list is now empty), comes back,
+and a second frame of 8 is refused: the tick transmitted 8 ≤ 10, the load is still 8 -/
+example :
+    let n : Net := { links := [], chans := [{ caps := [10], load := 0, en := [true] }] }
+    let r := runEvs (tick n) [.wsend 0 0 8 [], .wsetEn 0 0 false, .wleave 0 0, .wsetEn 0 0 true, .wjoin 0 0, .wsend 0 0 8 []]
+    r.2.map (·.verdict) = [.carried, .full] ∧ carriedOn true 0 r.2 = 8 ∧ cloadOf r.1 0 = 8 := by decide
+
+/-- an interface that was removed from the airspace without being disabled (`remove_wireless_interface` / `clear()` called on
+their own) still transmits, and is deaf -/
+example :
+    let n : Net := { links := [], chans := [{ caps := [10, 10], load := 0, en := [true, true] }] }
+    let r := runEvs (tick n) [.wleave 0 1, .wsend 0 0 3 [.wrecv 0 0 1], .wsend 0 1 3 [.wrecv 0 1 0]]
+    r.2.map (·.verdict) = [.deaf, .carried, .heard, .carried] ∧ cloadOf r.1 0 = 6 := by decide
+
 /-! ### Two frequency names on one hz: capacity per name, load per hz
 
 `AirSpace.can_transmit_frame` tests `bandwidth_load[hz] + size <= capacity(name of the sender)`.  What that guarantees, for every
@@ -1704,6 +1847,16 @@ theorem runEv_under (n : Net) (e : Ev) (c C A : Nat) (hA : A ≤ cloadOf n c) (h
       · simpa [hcur, sentUnder] using hC
       · simpa [hcur, sentUnder] using hC
   | wsetEn c0 i v =>
+    unfold runEv
+    cases hc : n.chans[c0]? with
+    | none => simpa [sentUnder] using hC
+    | some ch => simpa [sentUnder] using hC
+  | wjoin c0 i =>
+    unfold runEv
+    cases hc : n.chans[c0]? with
+    | none => simpa [sentUnder] using hC
+    | some ch => simpa [sentUnder] using hC
+  | wleave c0 i =>
     unfold runEv
     cases hc : n.chans[c0]? with
     | none => simpa [sentUnder] using hC
@@ -1921,6 +2074,16 @@ theorem runEv_wunder (n : Net) (e : Ev) (k C A : Nat) (hA : A ≤ loadOf n k) (h
       · simpa [hcur, carriedUnder] using hC
       · simpa [hcur, carriedUnder] using hC
   | wsetEn c0 i v =>
+    unfold runEv
+    cases hc : n.chans[c0]? with
+    | none => simpa [carriedUnder] using hC
+    | some ch => simpa [carriedUnder] using hC
+  | wjoin c0 i =>
+    unfold runEv
+    cases hc : n.chans[c0]? with
+    | none => simpa [carriedUnder] using hC
+    | some ch => simpa [carriedUnder] using hC
+  | wleave c0 i =>
     unfold runEv
     cases hc : n.chans[c0]? with
     | none => simpa [carriedUnder] using hC
@@ -2293,6 +2456,13 @@ def flapAW (bw : Nat) : Nat × Nat → List (Option Nat) → Nat × Nat
 
 /-- Before the repair: send 8, disable, enable, send 8 on a link of 10 carried 16 in one tick. -/
 theorem C18_asWritten_disable_counterexample : (flapAW 10 (0, 0) [some 8, none, some 8]).2 = 16 := by decide
+
+/-- What the property excludes, as a checked statement (seeded change C18-d; never in the repository): an airspace that forgets
+a frequency's load when its last interface leaves (`none` = the frequency is emptied and repopulated) transmits 16 on a channel
+of 10 in one tick while its own counter never reads above 8. `flapAW` is that accounting (it is the one `Link.endpoint_down` had). -/
+theorem C18_air_forget_on_empty_counterexample :
+    (flapAW 10 (0, 0) [some 8, none, some 8]).2 = 16 ∧ (flapAW 10 (0, 0) [some 8, none, some 8]).1 = 8 := by decide
+
 
 /-! ### The release of the reservation is safe even if a refusal came after nested sends
 
